@@ -129,6 +129,7 @@ type Call struct {
 	A  int    `json:"a"`
 	B  int    `json:"b"`
 	S  string `json:"s"`
+	R  [][]int `json:"r"` // attach / terminate_instances: the instance numbers as maximal consecutive runs [lo, hi]
 }
 
 // Fault names one failing operation: (op, target).
